@@ -284,8 +284,10 @@ NextC ==
   \/ \E via \in Vias : \E p \in PathsVia(via) : Remove(via, p) \/ Query(via, p)
   \/ \E v \in Vals : AssignSelf(v)
   \/ ClearBelow \/ ClearAll
+\* (a set replaces the object whatever it was: all strings are offered to a
+\* fresh object, only the shortest ones to a used one)
 NextP ==
-  \/ \E s \in Strs, sep \in Seps, asg \in Asgs : PSet(s, sep, asg)
+  \/ \E s \in Strs, sep \in Seps, asg \in Asgs : (po.buf = <<>> \/ Len(s) <= 1) /\ PSet(s, sep, asg)
   \/ PNext \/ PLast \/ PDel
   \/ \E e \in Elems : PAddElem(e)
 
